@@ -38,7 +38,7 @@ Implies(t, u) == \A i \in DOMAIN t : t[i] => u[i]
 RECURSIVE NormalForm(_)
 NormalForm(t) ==
   CASE t.k \in {"empty", "any", "atom"} -> TRUE
-    [] t.k \in {"eqgroup", "negroup"} -> t.n >= 2
+    [] t.k \in {"eqgroup", "negroup"} -> t.n >= 2 /\ t.nd = t.n        \* at least two values, all distinct
     [] t.k \in {"and", "or"} ->
          /\ Len(t.ch) >= 2
          /\ \A i, j \in 1..Len(t.ch) : i # j => t.ch[i].key # t.ch[j].key
